@@ -10,3 +10,4 @@ go build -o ../build/geneffects ./cmd/geneffects
 go build -o ../build/gencallgraph ./cmd/gencallgraph
 go build -o ../build/gendispatch ./cmd/gendispatch
 go build -o ../build/genparse ./cmd/genparse
+go build -o ../build/genlogic ./cmd/genlogic
